@@ -488,6 +488,11 @@ func (s *Solver) readResult() SatResult {
 		case l == "unknown" || l == "timeout":
 			return Unknown
 		case strings.HasPrefix(l, "(error"):
+			if strings.Contains(l, "solver died") {
+				// killed by the watchdog (query over time): inconclusive, not malformed
+				s.dead = true
+				return Unknown
+			}
 			s.Stats.Errors++
 			if !s.quietErrors {
 				fmt.Fprintf(os.Stderr, "solver %s: %s\n", s.name, l)
